@@ -5,7 +5,18 @@ rows = []
 for d in sorted(glob.glob("/verif/seeded/*")):
     m = json.load(open(os.path.join(d, "meta.json")))
     det = m["detection"]
-    status = "caught" if det.startswith("CAUGHT") else ("caught after strengthening" if det.startswith("MISSED") and "CAUGHT" in det else "missed")
+    if det.startswith("CAUGHT"):
+        status = "caught"
+    elif det.startswith("first run ended in HARNESS-ERROR") and "CAUGHT" in det:
+        status = "caught after correcting the check"
+    elif det.startswith("first reported only through") and "CAUGHT" in det:
+        status = "caught after correcting the check"
+    elif det.startswith("MISSED") and "CAUGHT" in det:
+        status = "caught after strengthening"
+    elif det.startswith("not a C"):
+        status = "property not broken (reported by another check)"
+    else:
+        status = "missed"
     rows.append("| %s | %s | %s | %s |" % (os.path.basename(d), m["needs_to_manifest"].replace("|", "/"), status, det.replace("|", "\\|")))
 print("| seeded change | what it needs to manifest | result | detail |\n|---|---|---|---|")
 print("\n".join(rows))
